@@ -1,5 +1,6 @@
 import Driver.Ops.Cidr
 import Driver.Ops.Lifecycle
+import Driver.Ops.Merge
 import Driver.Ops.Tftp
 /-
 Line protocol: one JSON object per input line with a field "op"; one JSON object per
@@ -10,6 +11,7 @@ open Lean Driver
 def allOps : List (String × Op) :=
   Driver.Cidr.ops ++
   Driver.Lifecycle.ops ++
+  Driver.Merge.ops ++
   Driver.Tftp.ops
 
 def handleLine (line : String) : String :=
